@@ -171,7 +171,11 @@ public:
       if (isa<CXXConstructorDecl>(MD)) O["ctor"] = true;
       if (isa<CXXDestructorDecl>(MD)) O["dtor"] = true;
       if (isa<CXXConversionDecl>(MD)) O["conv"] = true;
+      if (MD->isConst()) O["const"] = true;
+      O["access"] = (int64_t)MD->getAccess();
+      if (MD->getParent()->isLambda()) O["lambda"] = true;
     }
+    if (!FD->isExternallyVisible()) O["internal"] = true;
     // where is it declared (pattern location for instantiations)
     const FunctionDecl *Loc = FD;
     if (const FunctionDecl *Pat = FD->getTemplateInstantiationPattern()) Loc = Pat;
@@ -359,7 +363,29 @@ public:
     if (const auto *OC = dyn_cast<CXXOperatorCallExpr>(E)) {
       O["k"] = "OpCall";
       O["op"] = getOperatorSpelling(OC->getOperator());
-      if (const FunctionDecl *FD = OC->getDirectCallee()) O["callee"] = calleeInfo(FD);
+      if (const FunctionDecl *FD = OC->getDirectCallee()) {
+        O["callee"] = calleeInfo(FD);
+        // a generic lambda's body is only resolved in the instantiated call operator: attach it to the call
+        if (const auto *MD = dyn_cast<CXXMethodDecl>(FD))
+          if (MD->getParent()->isLambda() && MD->isTemplateInstantiation() && MD->hasBody() &&
+              LamDepth < 4) {
+            ++LamDepth;
+            json::Object L;
+            json::Array P;
+            for (const ParmVarDecl *PV : MD->parameters()) {
+              json::Object PO;
+              PO["n"] = PV->getNameAsString();
+              PO["t"] = ty(PV->getType());
+              PO["id"] = localId(PV);
+              P.push_back(std::move(PO));
+            }
+            L["params"] = std::move(P);
+            L["ret"] = ty(MD->getReturnType());
+            L["body"] = ser(MD->getBody());
+            O["lam"] = std::move(L);
+            --LamDepth;
+          }
+      }
       json::Array A;
       for (const Expr *Arg : OC->arguments()) A.push_back(serExpr(Arg));
       O["args"] = std::move(A);
@@ -591,6 +617,8 @@ public:
       if (MD->isConst()) K += "const";
     return K;
   }
+
+  int LamDepth = 0;
 
   void addFunction(const FunctionDecl *FD) {
     if (!FD->doesThisDeclarationHaveABody()) return;
